@@ -36,7 +36,8 @@ Record fcounter := { fc_rows : list (list Z); fc_seeds : list Z; fc_total : Z }.
 
 Definition fc_new (counters : Z) (seeds : list Z) : fcounter :=
   let total := next_power_2 counters in
-  {| fc_rows := repeat (repeat 0 (Z.to_nat (total / 2))) 4; fc_seeds := seeds; fc_total := total |}.
+  (* the row length is at least one byte (fix for counters = 1) *)
+  {| fc_rows := repeat (repeat 0 (Z.to_nat (Z.max 1 (total / 2)))) 4; fc_seeds := seeds; fc_total := total |}.
 
 Definition fc_pos (fc : fcounter) (h seed : Z) : Z := (Z.lxor h seed) mod (fc_total fc).
 
